@@ -2,20 +2,13 @@
 From C14 Require Import Base Model Spec ProofsScan ProofsReverse ProofsRemove.
 From Coq Require Import Arith.
 
-(* the loop of delete-duplicates.go on the elements inside the bounds *)
+(* the loop of delete-duplicates.go on the elements inside the bounds: every key examined goes to uniq *)
 Fixpoint dup_vals (t : testarg) (k : option keyfn) (xs uniq : list Z) : list Z :=
   match xs with
   | [] => []
   | x :: r => let kx := key_app k x in
-              if existsb (fun u => dup_test t kx u) uniq then dup_vals t k r uniq
+              if existsb (fun u => dup_test t kx u) uniq then dup_vals t k r (uniq ++ [kx])
               else x :: dup_vals t k r (uniq ++ [kx])
-  end.
-Fixpoint uniq_final (t : testarg) (k : option keyfn) (xs uniq : list Z) : list Z :=
-  match xs with
-  | [] => uniq
-  | x :: r => let kx := key_app k x in
-              if existsb (fun u => dup_test t kx u) uniq then uniq_final t k r uniq
-              else uniq_final t k r (uniq ++ [kx])
   end.
 
 Lemma dup_loop_outside : forall t k start e ps uniq rest,
@@ -40,27 +33,30 @@ Qed.
 Lemma dup_loop_inside : forall t k start e ps uniq rest,
   inside start e ps ->
   dup_loop t k start e (ps ++ rest) uniq =
-  dup_vals t k (map snd ps) uniq ++ dup_loop t k start e rest (uniq_final t k (map snd ps) uniq).
+  dup_vals t k (map snd ps) uniq ++ dup_loop t k start e rest (uniq ++ map (key_app k) (map snd ps)).
 Proof.
-  induction ps as [|[i x] r IH]; intros uniq rest Hi; [reflexivity|].
-  cbn [app dup_loop map snd dup_vals uniq_final].
-  assert (inside start e r) as Hi' by (intros j y Hin; apply (Hi j y); now right).
-  destruct (Hi i x (or_introl eq_refl)) as [H1 H2].
-  assert ((i <? start)%nat = false) as -> by (apply Nat.ltb_ge; lia).
-  assert ((e <=? i)%nat = false) as -> by (apply Nat.leb_gt; lia).
-  cbn [orb].
-  destruct (existsb (fun u => dup_test t (key_app k x) u) uniq); rewrite IH by assumption; reflexivity.
+  induction ps as [|[i x] r IH]; intros uniq rest Hi.
+  - cbn. now rewrite app_nil_r.
+  - cbn [app dup_loop map snd dup_vals].
+    assert (inside start e r) as Hi' by (intros j y Hin; apply (Hi j y); now right).
+    destruct (Hi i x (or_introl eq_refl)) as [H1 H2].
+    assert ((i <? start)%nat = false) as -> by (apply Nat.ltb_ge; lia).
+    assert ((e <=? i)%nat = false) as -> by (apply Nat.leb_gt; lia).
+    cbn [orb].
+    destruct (existsb (fun u => dup_test t (key_app k x) u) uniq); rewrite IH by assumption;
+      rewrite <- app_assoc; reflexivity.
 Qed.
 
 Lemma dup_vals_app : forall t k a b u,
-  dup_vals t k (a ++ b) u = dup_vals t k a u ++ dup_vals t k b (uniq_final t k a u).
+  dup_vals t k (a ++ b) u = dup_vals t k a u ++ dup_vals t k b (u ++ map (key_app k) a).
 Proof.
-  induction a as [|x r IH]; intros b u; [reflexivity|].
-  cbn [app dup_vals uniq_final].
-  destruct (existsb (fun u0 => dup_test t (key_app k x) u0) u); rewrite IH; reflexivity.
+  induction a as [|x r IH]; intros b u.
+  - cbn. now rewrite app_nil_r.
+  - cbn [app dup_vals map].
+    destruct (existsb (fun u0 => dup_test t (key_app k x) u0) u); rewrite IH; rewrite <- app_assoc; reflexivity.
 Qed.
 
-(* ---- what the kept keys know about the elements already seen ------------------------------------------ *)
+(* ---- properties of tests (used by the laws of the specification below and by :from-end) ------------------- *)
 Definition tr (t : testarg) : Prop := forall a b c, dup_test t a b = true -> dup_test t b c = true -> dup_test t a c = true.
 Definition sy (t : testarg) : Prop := forall a b, dup_test t a b = dup_test t b a.
 
@@ -80,102 +76,47 @@ Qed.
 Lemma dup_test_s_test2 : forall t a b, dup_test t a b = s_test2 t a b.
 Proof. destruct t; reflexivity. Qed.
 
-Definition Inv (t : testarg) (k : option keyfn) (P U : list Z) : Prop :=
-  (forall u, In u U -> exists y, In y P /\ u = key_app k y) /\
-  (forall y, In y P -> In (key_app k y) U \/ exists u, In u U /\ dup_test t (key_app k y) u = true).
+Lemma existsb_map_key : forall (f : Z -> bool) (k : option keyfn) l,
+  existsb f (map (key_app k) l) = existsb (fun y => f (key_app k y)) l.
+Proof. induction l as [|x r IH]; [reflexivity|]. cbn. now rewrite IH. Qed.
 
-Lemma Inv_nil : forall t k, Inv t k [] [].
-Proof. split; intros ? []. Qed.
-
-Lemma Inv_step : forall t k P U x,
-  Inv t k P U ->
-  Inv t k (x :: P) (if existsb (fun u => dup_test t (key_app k x) u) U then U else U ++ [key_app k x]).
+Lemma existsb_rev : forall (f : Z -> bool) l, existsb f (rev l) = existsb f l.
 Proof.
-  intros t k P U x [I1 I2].
-  destruct (existsb (fun u => dup_test t (key_app k x) u) U) eqn:E.
-  - split.
-    + intros u Hu. destruct (I1 u Hu) as [y [Hy ->]]. exists y. split; [now right|reflexivity].
-    + intros y [<-|Hy].
-      * right. apply existsb_exists in E. exact E.
-      * apply I2. exact Hy.
-  - split.
-    + intros u Hu. apply in_app_or in Hu as [Hu|[<-|[]]].
-      * destruct (I1 u Hu) as [y [Hy ->]]. exists y. split; [now right|reflexivity].
-      * exists x. split; [now left|reflexivity].
-    + intros y [<-|Hy].
-      * left. apply in_or_app. right. now left.
-      * destruct (I2 y Hy) as [H|[u [Hu Ht]]].
-        -- left. apply in_or_app. now left.
-        -- right. exists u. split; [apply in_or_app; now left|exact Ht].
+  induction l as [|x r IH]; [reflexivity|]. cbn. rewrite existsb_app, IH. cbn.
+  rewrite orb_false_r. apply orb_comm.
 Qed.
 
-Lemma Inv_final : forall t k a P U, Inv t k P U -> Inv t k (rev a ++ P) (uniq_final t k a U).
+(* without :from-end: walking backwards, uniq holds the keys of ALL later elements of the bounded part:
+   the loop is the specification's "matches a later element" — for EVERY test *)
+Lemma dedup_later_backward : forall t k w,
+  rev (dup_vals t k (rev w) []) = dedup_later t k w.
 Proof.
-  induction a as [|x r IH]; intros P U HI; [exact HI|].
-  cbn [uniq_final rev]. rewrite <- app_assoc. cbn [app].
-  pose proof (Inv_step t k P U x HI) as Hs.
-  destruct (existsb (fun u => dup_test t (key_app k x) u) U); apply IH; exact Hs.
+  intros t k w. induction w as [|x r IH]; [reflexivity|].
+  cbn [rev]. rewrite dup_vals_app. cbn [dup_vals app]. cbn [dedup_later].
+  rewrite existsb_map_key, existsb_rev.
+  assert (existsb (fun y => dup_test t (key_app k x) (key_app k y)) r =
+          existsb (fun y => s_test2 t (key_app k x) (key_app k y)) r) as ->
+    by (clear; induction r as [|y r IH]; [reflexivity|]; cbn; now rewrite IH, dup_test_s_test2).
+  destruct (existsb (fun y => s_test2 t (key_app k x) (key_app k y)) r).
+  - rewrite app_nil_r. exact IH.
+  - rewrite rev_app_distr. cbn. now rewrite IH.
 Qed.
 
-(* without :from-end: walking backwards, "some kept later key matches" = "some later element matches" *)
-Lemma later_equiv : forall t k P U x, tr t -> Inv t k P U ->
-  existsb (fun u => dup_test t (key_app k x) u) U = existsb (fun y => s_test2 t (key_app k x) (key_app k y)) P.
+(* with :from-end: walking forwards, uniq holds the keys of all earlier elements; the test is called
+   with the LATER element first, which is the specification's order for a symmetric test *)
+Lemma dedup_earlier_forward : forall t k w seen, sy t ->
+  dup_vals t k w (map (key_app k) seen) = dedup_earlier t k seen w.
 Proof.
-  intros t k P U x Ht [I1 I2]. apply eq_true_iff_eq. rewrite !existsb_exists. split.
-  - intros [u [Hu Hm]]. destruct (I1 u Hu) as [y [Hy ->]]. exists y. split; [exact Hy|].
-    now rewrite <- dup_test_s_test2.
-  - intros [y [Hy Hm]]. rewrite <- dup_test_s_test2 in Hm. destruct (I2 y Hy) as [H|[u [Hu Hm2]]].
-    + exists (key_app k y). split; assumption.
-    + exists u. split; [exact Hu|]. eapply Ht; eassumption.
-Qed.
-
-Lemma dedup_later_backward : forall t k w, tr t ->
-  rev (dup_vals t k (rev w) []) = dedup_later t k w /\ Inv t k w (uniq_final t k (rev w) []).
-Proof.
-  intros t k w Ht. induction w as [|x r [IH1 IH2]].
-  - split; [reflexivity|apply Inv_nil].
-  - cbn [rev]. rewrite dup_vals_app. cbn [dup_vals]. split.
-    + rewrite (later_equiv t k r _ x Ht IH2). cbn [dedup_later].
-      destruct (existsb (fun y => s_test2 t (key_app k x) (key_app k y)) r).
-      * rewrite app_nil_r. exact IH1.
-      * rewrite rev_app_distr. cbn. now rewrite IH1.
-    + pose proof (Inv_final t k (rev r ++ [x]) [] [] (Inv_nil t k)) as H.
-      rewrite rev_app_distr, rev_involutive, app_nil_r in H. exact H.
-Qed.
-
-(* with :from-end: walking forwards, for a symmetric and transitive test *)
-Lemma earlier_equiv : forall t k P U x, tr t -> sy t -> Inv t k P U ->
-  existsb (fun u => dup_test t (key_app k x) u) U = existsb (fun y => s_test2 t (key_app k y) (key_app k x)) P.
-Proof.
-  intros t k P U x Ht Hs [I1 I2]. apply eq_true_iff_eq. rewrite !existsb_exists. split.
-  - intros [u [Hu Hm]]. destruct (I1 u Hu) as [y [Hy ->]]. exists y. split; [exact Hy|].
-    rewrite <- dup_test_s_test2. now rewrite Hs.
-  - intros [y [Hy Hm]]. rewrite <- dup_test_s_test2, Hs in Hm. destruct (I2 y Hy) as [H|[u [Hu Hm2]]].
-    + exists (key_app k y). split; assumption.
-    + exists u. split; [exact Hu|]. eapply Ht; eassumption.
-Qed.
-
-Lemma existsb_perm_in : forall (f : Z -> bool) l1 l2, (forall y, In y l1 <-> In y l2) -> existsb f l1 = existsb f l2.
-Proof.
-  intros f l1 l2 H. apply eq_true_iff_eq. rewrite !existsb_exists. split; intros [y [Hy Hf]]; exists y; split; auto; apply H; auto.
-Qed.
-
-Lemma dedup_earlier_forward : forall t k w seen U, tr t -> sy t -> Inv t k seen U ->
-  dup_vals t k w U = dedup_earlier t k seen w.
-Proof.
-  intros t k w. induction w as [|x r IH]; intros seen U Ht Hs HI; [reflexivity|].
+  intros t k w. induction w as [|x r IH]; intros seen Hs; [reflexivity|].
   cbn [dup_vals dedup_earlier].
-  rewrite (earlier_equiv t k seen U x Ht Hs HI).
-  pose proof (Inv_step t k seen U x HI) as Hstep.
-  rewrite (earlier_equiv t k seen U x Ht Hs HI) in Hstep.
-  assert (forall U', Inv t k (x :: seen) U' -> Inv t k (seen ++ [x]) U') as Hperm.
-  { intros U' [J1 J2]. split.
-    - intros u Hu. destruct (J1 u Hu) as [y [Hy ->]]. exists y. split; [|reflexivity].
-      apply in_or_app. destruct Hy as [<-|Hy]; [right; now left|now left].
-    - intros y Hy. apply J2. apply in_app_or in Hy as [Hy|[<-|[]]]; [now right|now left]. }
+  rewrite existsb_map_key.
+  assert (existsb (fun y => dup_test t (key_app k x) (key_app k y)) seen =
+          existsb (fun y => s_test2 t (key_app k y) (key_app k x)) seen) as ->
+    by (clear - Hs; induction seen as [|y r IH]; [reflexivity|]; cbn; now rewrite IH, Hs, dup_test_s_test2).
+  replace (map (key_app k) seen ++ [key_app k x]) with (map (key_app k) (seen ++ [x])) by (now rewrite map_app).
   destruct (existsb (fun y => s_test2 t (key_app k y) (key_app k x)) seen).
-  - apply IH; auto.
-  - f_equal. apply IH; auto.
+  - now apply IH.
+  - f_equal. now apply IH.
 Qed.
 
 (* ---- the call ---------------------------------------------------------------------------------------- *)
@@ -188,13 +129,11 @@ Proof.
   assert (Hb := Hd). split_dom Hb D2 D1 D0 D.
   unfold bounds_ok in Hb. apply andb_true_iff in Hb as [B1 B2].
   apply Nat.leb_le in B1, B2.
-  assert (test_transitive (c_test c) = true /\ (c_from_end c = false \/ test_symmetric (c_test c) = true)) as [Htr Hsy].
-  { destruct (c_fn c); try discriminate Hf; cbn in D; apply andb_true_iff in D as [Da Db]; split; auto;
-      apply orb_true_iff in Db as [Db|Db]; auto; left; now apply negb_true_iff in Db. }
-  assert (not_test_not (c_test c) = true) as Htn by (destruct (c_test c); try discriminate; reflexivity).
+  assert (c_from_end c = false \/ test_symmetric (c_test c) = true) as Hsy.
+  { destruct (c_fn c); try discriminate Hf; cbn in D;
+      apply orb_true_iff in D as [Db|Db]; auto; left; now apply negb_true_iff in Db. }
   assert (no_count (c_fn c) = true) as Hnc by (destruct (c_fn c); try discriminate; reflexivity).
-  pose proof (parse_sfv_scan c Hnc D0 Htn) as Hp.
-  pose proof (transitive_tests _ Htr) as Ht.
+  pose proof (parse_sfv_scan c Hnc D0) as Hp.
   assert (m_dups c (mkSfv (s_start c) (c_end c) None (c_from_end c)) =
           RSeq (firstn (s_start c) (elems (c_seq c)) ++
                 (if c_from_end c then dedup_earlier (c_test c) (c_key c) [] (slice (s_start c) (s_end c (elems (c_seq c))) (elems (c_seq c)))
@@ -227,7 +166,7 @@ Proof.
         rewrite dup_loop_inside by (apply (part2_inside _ _ _ _ B1' B2' E1 E2)).
         rewrite dup_loop_outside_all by (apply (part3_outside _ _ _ _ B1' B2' E1 E2)).
         rewrite (vals1 _ _ _ _ B1' B2' E1 E2), (vals2 _ _ _ _ B1' B2' E1 E2), vals3.
-        rewrite (dedup_earlier_forward _ _ _ [] [] Ht Hs' (Inv_nil _ _)). reflexivity.
+        rewrite (dedup_earlier_forward _ _ _ [] Hs'). reflexivity.
       - rewrite !rev_app_distr. rewrite <- app_assoc.
         rewrite dup_loop_outside by (apply rev_outside, (part3_outside _ _ _ _ B1' B2' E1 E2)).
         rewrite dup_loop_inside by (apply rev_inside, (part2_inside _ _ _ _ B1' B2' E1 E2)).
@@ -235,7 +174,7 @@ Proof.
         rewrite !map_snd_rev.
         rewrite (vals1 _ _ _ _ B1' B2' E1 E2), (vals2 _ _ _ _ B1' B2' E1 E2), vals3.
         rewrite !rev_app_distr, !rev_involutive.
-        destruct (dedup_later_backward (c_test c) (c_key c) (slice (s_start c) (s_end c l) l) Ht) as [-> _].
+        rewrite (dedup_later_backward (c_test c) (c_key c) (slice (s_start c) (s_end c l) l)).
         now rewrite <- app_assoc. }
     destruct (c_seq c) eqn:S.
     - cbn [elems]. unfold slice. rewrite !skipn_nil, !firstn_nil. destruct (c_from_end c); reflexivity.
